@@ -539,11 +539,46 @@ func ruleKeyOrder(c *Ctx) {
 		ap := appends[0]
 		bad := ""
 		h := innermostLoopHeader(ap.Block())
+		// the point that stands for the append in the ordering questions: the append itself, or
+		// — when the list is only kept under a condition fixed before the loop, the same one
+		// under which it is published — the test of that condition
+		var at ssa.Instruction = ap
+		guardNote := ""
+		if h != nil {
+			loop := naturalLoop(h)
+			var inLoop []edge
+			for _, e := range b.controlDeps(ap.Block()) {
+				if loop[e.From] && e.From != h {
+					inLoop = append(inLoop, e)
+				}
+			}
+			if len(inLoop) == 1 {
+				e := inLoop[0]
+				if iff, ok := lastInstr(e.From).(*ssa.If); ok {
+					c0, neg := stripNot(iff.Cond)
+					outside := true
+					if ci, isInstr := c0.(ssa.Instruction); isInstr && loop[ci.Block()] {
+						outside = false
+					}
+					want := (e.Succ == 0) != neg // the outcome of c0 under which the key is kept
+					published := false
+					for _, f := range dominatingFacts(pub.Block()) {
+						if f.V == c0 && f.True == want {
+							published = true
+						}
+					}
+					if outside && published {
+						at = iff
+						guardNote = " (kept only under the condition at " + b.posOf(iff) + ", which is fixed before the loop and is the one under which the list is published)"
+					}
+				}
+			}
+		}
 		if h == nil {
 			bad = "the append is not inside the member loop"
 		} else {
 			for _, p := range h.Preds {
-				if h.Dominates(p) && !ap.Block().Dominates(p) {
+				if h.Dominates(p) && !at.Block().Dominates(p) {
 					bad = "the append does not dominate the loop's back edge: some members are decoded without their key being recorded"
 				}
 			}
@@ -583,7 +618,7 @@ func ruleKeyOrder(c *Ctx) {
 				return
 			}
 			if f.Name() == "value" || f.Name() == "literalStore" {
-				if h != nil && naturalLoop(h)[call.Block()] && !b.instrDominates(ap, call) {
+				if h != nil && naturalLoop(h)[call.Block()] && !b.instrDominates(at, call) {
 					bad = "the member's value is decoded (" + f.Name() + " at " + b.posOf(call) + ") before its key is recorded: a nested object's keys would come first"
 				}
 			}
@@ -591,7 +626,7 @@ func ruleKeyOrder(c *Ctx) {
 		if bad != "" {
 			l.add("R-KEYORDER", "codec", key, b.posOf(ap), Violated, bad, true)
 		} else {
-			l.add("R-KEYORDER", "codec", key, b.posOf(ap), Discharged, "keys = append(keys, string(unquoted key)) dominates the loop latch and every value decode in the loop", true)
+			l.add("R-KEYORDER", "codec", key, b.posOf(ap), Discharged, "keys = append(keys, string(unquoted key)) dominates the loop latch and every value decode in the loop"+guardNote, true)
 		}
 	}
 	// the list is local: no append whose destination is d.lastKeys
